@@ -116,6 +116,8 @@ struct Exec {
   bool check_own = false;       // C10 ownership sweeps
   bool police_purge = false;    // C13: purge ranges must not hit live blocks
   bool allow_null = false;      // OS faults armed → NULL is acceptable
+  bool forced_abandon = false;  // target_segments_per_thread >= 2
+  bool visit_abandoned_on = false;
   bool known_f5_off = false;    // replay of the F5 demonstration: do not exclude
   uintptr_t exempt_lo = 0, exempt_hi = 0;   // block being released inside a realloc call (purge police)
   size_t last_areas = 0; bool have_last_areas = false;
@@ -172,9 +174,10 @@ struct Exec {
     m.live[(uintptr_t)p] = s; m.nlive++;
     if (m.nlive >= 8) flag(F_LIVE8);
   }
-  void model_fill(int s) {   // write the pattern after (optional) zero check
+  void model_fill(int s, bool sparse = false) {   // write the pattern after (optional) zero check
     Blk& b = m.slots[s];
     b.written = b.zmode ? b.n : b.u;
+    if (sparse && b.written > 64) { b.written = 64; if (b.u > 64) { b.p[b.u - 1] = 0x5a; } }   // `nt=1`: touch only the first 64 bytes and the last byte
     pat_fill(b.p, b.written, b.key);
   }
   void model_remove(int s, bool dirtied) {
@@ -216,7 +219,7 @@ struct Exec {
   void do_op(const Op& op);
   void op_alloc(const Op& op); void op_free(const Op& op); void op_realloc(const Op& op); void op_expand(const Op& op);
   void op_fill(const Op& op); void op_rfree(const Op& op, bool threaded); void op_talloc(const Op& op);
-  void op_heap(const Op& op); void op_visit(const Op& op); void op_edge(const Op& op); void op_arena(const Op& op);
+  void op_heap(const Op& op); void op_visit(const Op& op); void op_census(const Op& op); void op_edge(const Op& op); void op_arena(const Op& op);
   void op_opt(const Op& op); void op_misuse(const Op& op); void op_owncheck();
   uint8_t* call_alloc(const std::string& f, int h, size_t n, size_t c, size_t a, size_t o, bool& zeroing, size_t& req, size_t& eff_a, size_t& eff_o, bool& valid);
   void free_slot(int s, const std::string& f);
